@@ -244,11 +244,18 @@ func (ex *Exec) zero(t types.Type) Value {
 }
 
 func (ex *Exec) newObj(t types.Type, v Value, label string) *Object {
+	if ex.persistMode {
+		ex.persistSeq++
+		return &Object{ID: 1<<40 + ex.persistSeq, Val: v, Typ: t, Persistent: true, Label: label}
+	}
 	ex.objSeq++
-	return &Object{ID: ex.objSeq, Val: v, Typ: t, Persistent: ex.persistMode, Label: label}
+	return &Object{ID: ex.objSeq, Val: v, Typ: t, Label: label}
 }
 
 func (ex *Exec) setObj(o *Object, v Value) {
+	if ex.speculating > 0 && (o.Persistent || o.ID <= ex.specWatermark) {
+		panic(specAbort{}) // write barrier: speculation may only write objects it allocated
+	}
 	if o.Persistent && !ex.persistMode {
 		ex.undo = append(ex.undo, undoRec{o, o.Val})
 	}
